@@ -226,13 +226,22 @@ row([X | Y], Opt) -->
     { Y = [] }).
 
 
+% A row that consists of one empty field ends the table, unless the field
+% is written as "": a blank line cannot be told from the end of the input.
+quoted_ahead(true), "\"" -->
+  "\"",
+  !.
+quoted_ahead(false) --> [].
+
+
 rows(R, Opt) -->
+  quoted_ahead(Quoted),
   row(X, Opt),
   !,
-  ( { X \== [[]] } ->
-    rows(Y, Opt),
-    { R = [X | Y] }
-  ; { R = [] }).
+  ( { X == [[]], Quoted == false } ->
+    { R = [] }
+  ; rows(Y, Opt),
+    { R = [X | Y] }).
 
 
 parse_csv(frame(Header, Rows), Opt) --> 
@@ -243,8 +252,9 @@ parse_csv(frame(Header, Rows), Opt) -->
   },
   ( { option(with_header(With_Header), Opt0),
       With_Header == true } ->
+    quoted_ahead(Quoted),
     row(Header, Opt0),
-    { Header \== [[]] },
+    { ( Header \== [[]] -> true ; Quoted == true ) },
     end_token
   ; { Header = [] }),
   rows(Rows, Opt0).
